@@ -212,7 +212,7 @@ pub fn terminal_with_pieces(rng: &mut Rng, tries: usize, want_stalemate: bool) -
         let ks = *rng.pick(&[0u8, 7, 56, 63, 1, 6, 8, 15, 48, 55, 57, 62, 3, 4, 24, 31]);
         p.sq[ks as usize] = Some((weak, Pc::K));
         place_random(&mut p, rng, weak.opp(), Pc::K);
-        for _ in 0..1 + rng.below(2) { let pc = *rng.pick(&[Pc::N, Pc::B, Pc::R, Pc::P, Pc::P, Pc::Q]); place_near(&mut p, rng, weak, pc, ks); }
+        for _ in 0..1 + rng.below(3) { let pc = *rng.pick(&[Pc::N, Pc::B, Pc::R, Pc::P, Pc::P, Pc::Q]); place_near(&mut p, rng, weak, pc, ks); }
         for _ in 0..1 + rng.below(3) { let pc = *rng.pick(&[Pc::Q, Pc::R, Pc::R, Pc::B, Pc::N, Pc::P]); place_random(&mut p, rng, weak.opp(), pc); }
         p.turn = weak;
         if !p.is_consistent() { continue; }
@@ -254,6 +254,71 @@ pub fn ep_rich_sparse(rng: &mut Rng) -> Pos {
         p.turn = if rng.chance(0.7) { mover } else { mover.opp() };
         if p.is_consistent() && !p.legal_moves().is_empty() { return p; }
     }
+}
+
+/// One-ply predecessors of `s` by a quiet non-pawn move of the side that is NOT to move in `s` (retro-move):
+/// positions P with the other side to move in which a legal quiet move leads exactly to `s`.
+pub fn retro_predecessors(s: &Pos, rng: &mut Rng, max: usize) -> Vec<Pos> {
+    let mover = s.turn.opp();
+    let mut out = vec![];
+    let mut squares: Vec<u8> = (0..64u8).filter(|t| matches!(s.sq[*t as usize], Some((c, pc)) if c == mover && pc != Pc::P)).collect();
+    rng.shuffle(&mut squares);
+    for t in squares {
+        let (_, pc) = s.sq[t as usize].unwrap();
+        let mut froms: Vec<u8> = (0..64u8).filter(|f| s.sq[*f as usize].is_none()).collect();
+        rng.shuffle(&mut froms);
+        for f in froms {
+            let mut p = s.clone();
+            p.sq[t as usize] = None; p.sq[f as usize] = Some((mover, pc));
+            p.turn = mover; p.ep = None;
+            if pc == Pc::K || pc == Pc::R { /* rights stay as in s: a right cannot reappear, and s has none for moved pieces */ }
+            if !p.is_consistent() { continue; }
+            let legal = p.legal_moves();
+            if let Some(m) = legal.iter().find(|m| m.from == f && m.to == t && m.kind == Kind::Quiet) {
+                let n = p.make(m);
+                if n.sq == s.sq && n.rights == s.rights && n.ep == s.ep { out.push(p); if out.len() >= max { return out; } break; }
+            }
+        }
+    }
+    out
+}
+
+/// Roots two plies before a stalemate (or mate) of a side that still has pieces: the last move is a quiet one.
+pub fn roots_before_terminal(rng: &mut Rng, tries: usize, stalemate: bool, max: usize) -> Vec<Pos> {
+    let mut out = vec![];
+    for s in terminal_with_pieces(rng, tries, stalemate) {
+        for p1 in retro_predecessors(&s, rng, 2) {
+            out.push(p1.clone());
+            for p2 in retro_predecessors(&p1, rng, 2) { out.push(p2); }
+            if out.len() >= max { return out; }
+        }
+    }
+    out
+}
+
+/// Positions (strong side to move) in which a side owning only king + one knight/bishop has a mating move:
+/// the defender's king sits in a corner hemmed in by its own pieces.
+pub fn lone_minor_mates(rng: &mut Rng, tries: usize) -> Vec<Pos> {
+    let mut out = vec![];
+    for _ in 0..tries {
+        let mut p = Pos::empty();
+        let weak = *rng.pick(&[Col::W, Col::B]);
+        let corner = *rng.pick(&[0u8, 7, 56, 63]);
+        p.sq[corner as usize] = Some((weak, Pc::K));
+        let (f, r) = (file_of(corner), rank_of(corner));
+        for (df, dr) in [(1i8, 0i8), (0, 1), (1, 1), (-1, 0), (0, -1), (-1, -1), (1, -1), (-1, 1)] {
+            if let Some(s) = sq_of(f + df, r + dr) { if rng.chance(0.85) { let pc = *rng.pick(&[Pc::P, Pc::P, Pc::N, Pc::B, Pc::R]); if !(pc == Pc::P && (s / 8 == 0 || s / 8 == 7)) { p.sq[s as usize] = Some((weak, pc)); } } }
+        }
+        let minor = *rng.pick(&[Pc::N, Pc::N, Pc::B]);
+        if !place_near(&mut p, rng, weak.opp(), minor, corner) { continue; }
+        place_random(&mut p, rng, weak.opp(), Pc::K);
+        // the minor starts somewhere else: move it away by one of its own moves played backwards = just re-place it
+        p.turn = weak.opp();
+        if !p.is_consistent() { continue; }
+        let legal = p.legal_moves();
+        if legal.iter().any(|m| { let n = p.make(m); n.in_check(n.turn) && n.legal_moves().is_empty() }) { out.push(p); }
+    }
+    out
 }
 
 #[derive(Clone, Copy, Debug, PartialEq, Eq)]
